@@ -81,6 +81,12 @@ def pool(R):
         P.append({"fn": "jalali", "s": s}); cal.append(len(P) - 1)
         P.append({"fn": "hijri", "s": s}); cal.append(len(P) - 1)
     pool.calendars = cal
+    # a skip token that ends in a full stop, used by the first search in the process, and a later search whose sentence splitting depends on
+    # which abbreviations the locale knows
+    ab = []
+    P.append({"fn": "search", "s": "hello 3 May 2019", "kw": {"languages": ["en"], "settings": {"SKIP_TOKENS": ["march."], "RELATIVE_BASE": B1}}}); ab.append(len(P) - 1)
+    P.append({"fn": "search", "s": "We met on 12 march. 2020 was a bad year", "kw": {"languages": ["en"], "settings": {"RELATIVE_BASE": B1}}}); ab.append(len(P) - 1)
+    pool.abbrev = ab
     # strings that carry a zone, in spellings one of which is a part of another (GMT / GMT+0530, +01:00 / UTC+01:00, CST / GMT+0800 (CST)): what the
     # zone look-up did for one must not be remembered for the next
     zg = []
@@ -231,6 +237,9 @@ def run(ctx):
         cg = getattr(pool, "calendars", [])
         for _ in range(24 if tier == "quick" else 400):
             hists.append(([R.choice(cg) for _ in range(R.randint(2, 4))], "0"))
+        abg = getattr(pool, "abbrev", [])
+        if abg:
+            hists.append((abg, "0")); hists.append((abg[::-1] + abg, "0"))
         zg = getattr(pool, "zones", [])
         for _ in range(40 if tier == "quick" else 600):
             hists.append(([R.choice(zg) for _ in range(R.randint(2, 4))], "0"))
